@@ -19,7 +19,7 @@ pub fn def() -> CheckDef {
         bounds_quick: "<=3 segments, total size <=3 (every split of the total over the segments, empty segments included), value codomains symbolic 0..=3, re-indexing maps of length <=3 (non-injective, empty, mistyped; segments+total+|x| <= 7), flatmap operands <=2 segments/total <=3",
         bounds_thorough: "<=4 segments, total <=4",
         jobs,
-        budget_s: (120, 1500),
+        budget_s: (100, 1500),
     }
 }
 
